@@ -235,7 +235,10 @@ func runGated(co *cobj, gp *gated) (log []Ev, inside int, finished bool) {
 		return x
 	}
 	for _, op := range gp.Prefix {
-		x := do(0, op)
+		var x raw
+		if _, back := bounded(func() { x = do(0, op) }); !back { // an earlier call left the lock taken
+			return nil, 0, false
+		}
 		raws = append(raws, x)
 		if x.msg != "" {
 			goto merge
@@ -511,7 +514,9 @@ func runGate(c *core.Ctx) error {
 				t.Emit(core.Ev{"ev": "Timeout", "after": historyWatchdog.String()})
 			} else if !panicked {
 				var fin core.Ev
-				if msg := core.Guard(func() { fin = co.Final() }); msg != "" {
+				if msg, back := bounded(func() { fin = co.Final() }); !back {
+					t.Emit(core.Ev{"ev": "Timeout", "after": watchdog.String(), "o": "Final"})
+				} else if msg != "" {
 					t.Emit(core.Ev{"ev": "Panic", "p": 0, "o": "Final", "msg": msg})
 				} else {
 					fin["ev"] = "Final"
